@@ -195,7 +195,7 @@ class ChanFamily:
         main = [d for d in h.delivers if d['chan'] == 'main']
         got = collections.defaultdict(collections.Counter)
         for d in h.delivers:
-            if d['chan'] != 'main':
+            if d['chan'] != 'main' and not d.get('retry'):       # (redeliveries to an acknowledging channel are C09's subject)
                 got[(d['chan'], d['gen'])][d['id']] += 1
         obs['c18.messages'] += len(main)
         emit_seq = {}
